@@ -8,7 +8,9 @@ import Lean.Data.Json
 import Dippy.Model.Analyzer
 import Dippy.Model.Config
 import Dippy.Model.Load
+import Dippy.Model.Hook
 import Dippy.Generated.Tables
+import Dippy.Generated.Hook
 
 open Lean Dippy
 
@@ -325,6 +327,74 @@ def toFS (j : Json) : FS :=
       | some (_, v) => (v.getStr?).toOption.getD "<oracle-miss>"
       | none => "<oracle-miss:resolve>" }
 
+/-- tagged encoding of a Python JSON value -/
+partial def toPJson (j : Json) : PJson :=
+  match strD j "t" "null" with
+  | "bool" => .bool (boolD j "v" false)
+  | "num" => .num (boolD j "zero" false) (strD j "repr" "")
+  | "str" => .str (strD j "v" "")
+  | "arr" => .arr ((arrD j "v").toList.map toPJson)
+  | "obj" => .obj ((arrD j "v").toList.filterMap fun e =>
+      match e.getArr? with
+      | .ok pr => some (((pr[0]!).getStr?).toOption.getD "", toPJson pr[1]!)
+      | _ => none)
+  | _ => .null
+
+partial def ofPJson : PJson → Json
+  | .null => Json.null
+  | .bool b => Json.bool b
+  | .num _ r => Json.mkObj [("num", Json.str r)]
+  | .str s => Json.str s
+  | .arr xs => Json.arr (xs.map ofPJson).toArray
+  | .obj kvs => Json.mkObj (kvs.map fun kv => (kv.1, ofPJson kv.2))
+
+def toLoadResult (v : Json) : LoadResult :=
+  match v.getObjVal? "ok" with
+  | .ok c => .ok (toConfig c)
+  | _ => match v.getObjVal? "config_error" with
+    | .ok m => .configError ((m.getStr?).toOption.getD "")
+    | _ => .raised
+
+def toMode (s : String) : Option Mode :=
+  match s with
+  | "claude" => some .claude
+  | "gemini" => some .gemini
+  | "cursor" => some .cursor
+  | _ => none
+
+def toHookEnv (j : Json) : HookEnv :=
+  let res := pairTable j "resolve"
+  let loads := pairTable j "load"
+  let toks := pairTable j "tokenize"
+  let ans := (arrD j "analyze").toList.filterMap fun e =>
+    match e.getArr? with
+    | .ok pr => some (((pr[0]!).getStr?).toOption.getD "", ((pr[1]!).getStr?).toOption.getD "", pr[2]!)
+    | _ => none
+  let environ := pairTable j "environ"
+  let argv := (strList (j.getObjValD "argv")).toOption.getD []
+  { explicitMode := match optStr j "explicit" with
+      | some e => toMode e
+      | none => explicitFromFlags argv fun k => (environ.find? (·.1 == k)).bind fun kv => (kv.2.getStr?).toOption
+    processCwd := strD j "process_cwd" "/"
+    resolveCwd := fun s => match res.find? (·.1 == s) with
+      | some (_, v) => (v.getStr?).toOption
+      | none => some ("<oracle-miss:resolveCwd:" ++ s ++ ">")
+    loadConfig := fun cwd => match loads.find? (·.1 == cwd) with
+      | some (_, v) => toLoadResult v
+      | none => .configError ("<oracle-miss:load:" ++ cwd ++ ">")
+    analyze := fun cmd _ cwd => match ans.find? (fun e => e.1 == cmd && e.2.1 == cwd) with
+      | some e => if e.2.2.isNull then none else
+          some ⟨toAction (strD e.2.2 "action" "ask"), strD e.2.2 "reason" ""⟩
+      | none => some ⟨.deny, "<oracle-miss:analyze>"⟩
+    tokenize := fun cmd => match toks.find? (·.1 == cmd) with
+      | some (_, v) => (strList v).toOption.getD []
+      | none => ["<oracle-miss:tokenize>"]
+    pathEnv := toPathEnv (j.getObjValD "env")
+    logOk := boolD j "log_ok" true
+    geminiNames := Generated.geminiNames
+    shellToolNames := Generated.shellToolNames
+    bypassModes := Generated.bypassModes }
+
 def handle (j : Json) : R Json := do
   let op ← str j "op"
   match op with
@@ -399,6 +469,17 @@ def handle (j : Json) : R Json := do
     | .configError m => return Json.mkObj [("config_error", Json.str m)]
     | .raised => return Json.str "raised"
   | "ancestors" => return Json.arr ((ancestors (← str j "p")).map Json.str).toArray
+  | "hook" =>
+    let env := toHookEnv j
+    let sj := j.getObjValD "stdin"
+    let stdin : Stdin := match strD sj "kind" "notjson" with
+      | "value" => .value (toPJson (sj.getObjValD "json"))
+      | "undecodable" => .undecodable
+      | _ => .notJson
+    let outs := hook env stdin
+    return Json.arr (outs.map fun o => match o with
+      | .json v => Json.mkObj [("json", ofPJson v)]
+      | .text t => Json.mkObj [("text", Json.str t)]).toArray
   | "ping" => return Json.str "pong"
   | other => throw s!"unknown op {other}"
 
